@@ -677,6 +677,23 @@ public:
         return true;
     }
     void inject(const QString &xml) { d->stream->handlePacketReceived(domOf(xml)); }
+    // connectToServer(config, presence) driven offline: drop the connection, let the client connect to the loopback server again,
+    // then start the session the way the stream does after authentication/binding (initial presence is sent from _q_streamConnected)
+    bool reconnectWith(const QXmppPresence &p, quint16 port)
+    {
+        d->stream->socket()->abort();
+        QCoreApplication::processEvents();
+        QXmppConfiguration cfg = configuration();
+        cfg.setHost(QL("127.0.0.1"));
+        cfg.setPort(port);
+        connectToServer(cfg, p);
+        if (!d->stream->socket()->waitForConnected(2000)) return false;
+        QCoreApplication::processEvents();
+        d->stream->d->sessionStarted = true;
+        d->stream->d->isAuthenticated = true;
+        _q_streamConnected(QXmpp::Private::SessionBegin {});
+        return true;
+    }
     static QStringList baseFeatures() { return QXmppClientPrivate::discoveryFeatures(); }
 };
 
@@ -787,8 +804,8 @@ static void runClientCase(Rng &rng, Gen &g, long long n)
     // correspondence: model of capabilities()/addProperCapability()/handleIq() from the configuration the API reports
     QXmppDiscoveryIq parsed; parsed.parse(reply);
     std::string answered = parsed.verificationString().toBase64().toStdString();
-    auto capsOp = [&](const QString &q) {
-        std::string op = "caps " + hexOf(node) + " " + hexOf(q) + " " + hexOf(disco->clientCategory()) + " " + hexOf(disco->clientType()) + " " + hexOf(disco->clientName()) +
+    auto cfgTail = [&]() {
+        std::string op = hexOf(disco->clientCategory()) + " " + hexOf(disco->clientType()) + " " + hexOf(disco->clientName()) +
             " " + encFeats('B', TestClient::baseFeatures());
         auto exts = c.extensions();
         op += " E" + std::to_string(exts.size());
@@ -800,6 +817,7 @@ static void runClientCase(Rng &rng, Gen &g, long long n)
         op += " " + encForm(formHolder.hasForm, formHolder.fields);
         return op;
     };
+    auto capsOp = [&](const QString &q) { return "caps " + hexOf(disco->clientCapabilitiesNode()) + " " + hexOf(q) + " " + cfgTail(); };
     corr("reset", "ok");
     corr(capsOp(qnode), ver.toStdString() + "|" + answered);
     if (samplesLeft() > 0) sample("client: <c ver='" + ver.toStdString() + "' node='" + advNode.toStdString() + "'/> ; reply to " + qnode.toStdString() + " has " +
@@ -821,15 +839,91 @@ static void runClientCase(Rng &rng, Gen &g, long long n)
         bool err = !x3.isEmpty() && r3.attribute(QL("type")) == QL("error");
         corr(capsOp(other), ver.toStdString() + "|" + (err ? "not-found" : "answered"));
     }
-    // observation only (not part of the property's quantifier): reconfiguring without a new presence leaves the advertised hash stale,
-    // and the old node#ver is then answered with the new info set
-    if (n >= 2 && n % 5 == 0) {
-        disco->setClientName(disco->clientName() + QL("+"));
-        QDomElement r4; QString x4 = ask(qnode, r4);
-        if (!x4.isEmpty() && r4.attribute(QL("type")) == QL("result")) {
-            std::string x; Wire w4 = wireFromQuery(r4.firstChildElement(QL("query")));
-            if (xepVer(w4, Quirks(), x) && x != xep) stat("stale_ver_answered_with_new_info_after_reconfiguration");
+    // ---- history on the same client: reconfigure in each of the ways, publish again (fresh presence / presence derived from
+    //      clientPresence(), via setClientPresence / via connectToServer), and after EVERY emitted presence compare its ver with the
+    //      hash of the real answer for node#ver.  Model: every emitted presence carries the hash of capabilities() at emission time.
+    corr("config " + hexOf(disco->clientCapabilitiesNode()) + " " + cfgTail(), "ok");
+    std::string history = "publish(fresh,setClientPresence)";
+    QList<GenExtension *> added;
+    int steps = n < 2 ? 4 : 2 + int(rng.below(4));
+    QString lastQnode = qnode; std::string lastXep = xep;
+    for (int k = 0; k < steps; k++) {
+        // reconfigure
+        int way = n < 2 ? (n == 0 ? k : 3 - k) : int(rng.below(8));
+        switch (way) {
+        case 0: disco->setClientName(disco->clientName() + QL("+")); history += "; setClientName"; break;
+        case 1: {
+            auto *e = new GenExtension; e->feats << QL("urn:step:%1").arg(k);
+            if (rng.coin()) e->ids = makeIdentities({ g.identity() });
+            c.addExtension(e); added << e; history += "; addExtension";
+            break;
         }
+        case 2:
+            if (formHolder.hasForm && rng.coin()) { formHolder = InfoSet(); disco->setClientInfoForm(QXmppDataForm()); history += "; setClientInfoForm(none)"; }
+            else { do { formHolder = g.info(0, 0, false); } while (!formHolder.hasForm); disco->setClientInfoForm(makeForm(formHolder.fields, int(n) + k)); history += "; setClientInfoForm"; }
+            break;
+        case 3: if (rng.coin()) disco->setClientType(g.token() + QL("t")); else disco->setClientCategory(g.token() + QL("c")); history += "; setClientType/Category"; break;
+        case 4:
+            if (!added.isEmpty()) { c.removeExtension(added.takeLast()); history += "; removeExtension"; }
+            else { c.addNewExtension<QXmppUserTuneManager>(); history += "; addExtension(bundled)"; }
+            break;
+        case 5: disco->setClientCapabilitiesNode(QL("https://example.org/n%1").arg(k)); history += "; setClientCapabilitiesNode"; break;
+        case 6: if (!c.findExtension<QXmppVersionManager>()) { c.addNewExtension<QXmppVersionManager>(); history += "; addExtension(version)"; } else history += "; (no change)"; break;
+        default: history += "; (no change)"; break;
+        }
+        corr("config " + hexOf(disco->clientCapabilitiesNode()) + " " + cfgTail(), "ok");
+        // observation only (no presence published yet, so nothing is claimed): the old node#ver is answered with the new info set
+        if (way < 7) {
+            QDomElement r4; QString x4 = ask(lastQnode, r4);
+            if (!x4.isEmpty() && r4.attribute(QL("type")) == QL("result")) {
+                std::string x; Wire w4 = wireFromQuery(r4.firstChildElement(QL("query")));
+                if (xepVer(w4, Quirks(), x) && x != lastXep) stat("stale_ver_answered_with_new_info_before_republication");
+            }
+        }
+        // publish again
+        int how = n < 2 ? (k + int(n)) % 4 : int(rng.below(4));
+        bool derived = how == 1 || how == 2;
+        QXmppPresence p(QXmppPresence::Available);
+        if (derived) { p = c.clientPresence(); p.setStatusText(QL("status %1").arg(k)); if (rng.coin()) p.setPriority(k + 1); }
+        else if (rng.coin()) p.setStatusText(QL("new %1").arg(k));
+        c.sent.clear();
+        if (how >= 2) {
+            if (!c.reconnectWith(p, g_server->serverPort())) { fprintf(stderr, "loopback reconnect failed\n"); exit(3); }
+            if (!g_server->hasPendingConnections()) g_server->waitForNewConnection(1000);
+            while (g_server->hasPendingConnections()) g_server->nextPendingConnection()->setParent(&c);
+            history += derived ? "; publish(derived from clientPresence(),connectToServer)" : "; publish(fresh,connectToServer)";
+        } else {
+            c.setClientPresence(p);
+            history += derived ? "; publish(derived from clientPresence(),setClientPresence)" : "; publish(fresh,setClientPresence)";
+        }
+        stat(std::string("republish:") + (derived ? "derived" : "fresh") + (how >= 2 ? ":connectToServer" : ":setClientPresence"));
+        QString px;
+        for (auto &x : c.sent) if (x.startsWith(QL("<presence"))) px = x;
+        std::string rp = "client-case " + std::to_string(n) + " history: " + history;
+        if (px.isEmpty()) { oracleFail("C20:no-presence-emitted", rp); return; }
+        QDomElement ce;
+        { auto pd = domOf(px); for (auto e = pd.firstChildElement(QL("c")); !e.isNull(); e = e.nextSiblingElement(QL("c"))) if (e.namespaceURI() == QL("http://jabber.org/protocol/caps")) ce = e; }
+        if (ce.isNull()) { oracleFail("C20:presence-without-caps", rp + " " + px.toStdString()); return; }
+        QString v2 = ce.attribute(QL("ver")), n2 = ce.attribute(QL("node"));
+        rp += " presence=" + px.toStdString();
+        if (ce.attribute(QL("hash")) != QL("sha-1") || n2 != disco->clientCapabilitiesNode()) oracleFail("C20:caps-element-attributes", rp); else oraclePass()++;
+        corr(std::string("publish ") + (derived ? "derived" : "fresh"), v2.toStdString());
+        QString q2 = n2 + QL("#") + v2;
+        QDomElement r2; QString x2 = ask(q2, r2);
+        rp += " reply=" + x2.toStdString();
+        if (x2.isEmpty() || r2.attribute(QL("type")) != QL("result")) { oracleFail("C20:no-result-for-advertised-node", rp); return; }
+        Wire w2 = wireFromQuery(r2.firstChildElement(QL("query")));
+        std::string xep2;
+        if (!xepVer(w2, Quirks(), xep2)) { oracleFail("C20:reply-outside-xep-domain", rp); return; }
+        // THE property, for the presence just emitted
+        if (xep2 == v2.toStdString()) oraclePass()++;
+        else emitFailKeys(explain(w2, v2.toStdString()), "C20:advertised-ne-answered:after-republish", rp);
+        { std::set<std::string> fs; std::string dup; for (auto &f : w2.feats) if (!fs.insert(f).second) dup = f;
+          if (!dup.empty()) oracleFail("C20:reply-repeats-feature", "repeated: " + dup + " ; " + rp); else oraclePass()++; }
+        QXmppDiscoveryIq p2; p2.parse(r2);
+        corr("query " + hexOf(q2), p2.verificationString().toBase64().toStdString());
+        stat("client_republications");
+        lastQnode = q2; lastXep = xep2;
     }
 }
 
